@@ -13,6 +13,7 @@ import PyamgV.Proofs.ExtC19bBlock
 import PyamgV.Proofs.ExtC19bInst
 import PyamgV.Proofs.ExtC19bCoo
 import PyamgV.Proofs.ExtC19SVec
+import PyamgV.Proofs.ExtC19TSvdVec
 import Mathlib.Analysis.Real.Sqrt
 
 /-! # C19 — matrix utilities compute their stated algebraic result
@@ -231,6 +232,92 @@ restate vec_lanczos_eq_arnoldi := PyamgV.C19S.vec_lanczos_eq_arnoldi
 /-- (E39) the list-level function of the driver is that run -/
 restate approx_eig_vec_is_run := PyamgV.C19S.approxEigVec_eq
 
+/-! ### (E52) complex Hermitian input, the restart loop of `approximate_spectral_radius`, `condest` / `cond`
+Scalars: pairs `C19T.Cx F` over an ordered field `F` with an exact square root (`Model/ExtC19TCx.lean`; field and
+`StarRing` instances for the operations of the model in `Proofs/ExtC19TCxField.lean`); the Krylov model is the generic
+one of E39 run with the conjugated inner product (`approxEigCx`, binary64 pairs: op `ext_c19t_arnoldi`).  `ExactC`: the
+Hermitian form is definite and measured by the real part, `sqrt a * sqrt a = a` for `a >= 0`, breakdown tolerance `> 0`,
+start vector `!= 0`. -/
+/-- (E52) the pair type carries the operations of the model -/
+restate cx_pairs_instances := PyamgV.C19T.Cx.cx_instances
+/-- (E52) the Arnoldi invariant over any field with an involution and any definite Hermitian form (`ExactH`) -/
+restate herm_arnoldi_invariant := PyamgV.C19T.aeRunH_inv
+/-- (E52) every state of the complex model: `v_0 .. v_m` orthonormal for `<u, v> = u^H v` (the vector appended by the pass
+that detected a breakdown: norm zero or one), `m + 1` vectors for `m` columns -/
+restate carnoldi_model_orthonormal := PyamgV.C19T.cmodel_orthonormal
+/-- (E52) **`H = V^H A V`** on the leading block -/
+restate carnoldi_model_H_eq := PyamgV.C19T.cmodel_H_eq
+/-- (E52) `H` upper Hessenberg, `A v_j = sum_{l <= m} H_{lj} v_l` -/
+restate carnoldi_model_relation := PyamgV.C19T.cmodel_relation
+/-- (E52) Hermitian `A`: the leading block of `H` is Hermitian and tridiagonal -/
+restate carnoldi_model_H_herm := PyamgV.C19T.cmodel_H_herm
+/-- (E52) **every Ritz value is a Rayleigh quotient `<x, A x> / <x, x>`, `x != 0`: it lies in the numerical range** -/
+restate carnoldi_model_ritz_rayleigh := PyamgV.C19T.cmodel_ritz_rayleigh
+/-- (E52) **Hermitian `A`: every Ritz value is real** -/
+restate carnoldi_model_ritz_real := PyamgV.C19T.cmodel_ritz_real
+/-- (E52) `lo <= re theta <= hi` for all Rayleigh bounds of `re <x, A x>` (`[lambda_min, lambda_max]` for Hermitian `A`) -/
+restate carnoldi_model_ritz_between := PyamgV.C19T.cmodel_ritz_between
+/-- (E52) `|theta|^2 <= rho^2` for the numerical radius `rho` (any `A`) -/
+restate carnoldi_model_ritz_normSq_le := PyamgV.C19T.cmodel_ritz_normSq_le
+/-- (E52) **Hermitian `A`, `|<x, A x>| <= rho <x, x>`: `theta` real and `|theta| <= rho`** -/
+restate carnoldi_model_ritz_abs_le := PyamgV.C19T.cmodel_ritz_abs_le
+/-- (E52) ... and the number `np.abs(theta)` the code returns, as the model computes it, is `<= rho` -/
+restate carnoldi_model_estimate_le := PyamgV.C19T.cmodel_estimate_le
+/-- (E52) residual of a Ritz pair `A x - theta x = (H_{m,m-1} y_{m-1}) v_m`, `x = V y != 0` -/
+restate carnoldi_model_residual := PyamgV.C19T.cmodel_residual
+/-- (E52) breakdown = invariant subspace -/
+restate carnoldi_model_breakdown_eigen := PyamgV.C19T.cmodel_breakdown_eigen
+/-- (E52) the same for the `Vector (Cx F) n` instance the driver runs, form `u^H v` on `(Cx F)^n` -/
+restate cvec_arnoldi_orthonormal := PyamgV.C19T.cvec_orthonormal
+restate cvec_arnoldi_H_herm := PyamgV.C19T.cvec_H_herm
+restate cvec_arnoldi_ritz := PyamgV.C19T.cvec_ritz
+/-- (E52) the list-level function of the driver is that run -/
+restate approx_eig_cx_is_run := PyamgV.C19T.approxEigCx_eq
+
+/-! (E52) restart loop: model `C19T.asrCycle` / `asrLoop` / `asr` / `asrVec` (op `ext_c19t_asr`): the LAPACK
+eigen-decomposition of the small `H` of every pass is an oracle input that the model verifies (`eigOk`: residual
+`|H y - theta y|^2 <= vtolSq |y|^2`, `y != 0`); the theorems take `vtolSq = 0`. -/
+/-- (E52) an oracle pair accepted with tolerance zero is an exact eigenpair of the leading block with `y != 0` -/
+restate oracle_pair_is_ritz := PyamgV.C19T.eigOk_isRitz
+/-- (E52) a pass that succeeds from `v0 != 0`: the Krylov run of `v0`, `(theta, y)` a Ritz pair of it, `error` the residual
+coefficient `H_{m,m-1} y_{m-1}`, new start vector = the Ritz vector `V y != 0`, stopping flag as computed -/
+restate asr_cycle_spec := PyamgV.C19T.asrCycle_spec
+/-- (E52) **the loop**: between 1 and `restart + 1` passes, chained by the restart vectors, only the last may have
+converged or broken down -/
+restate asr_model_spec := PyamgV.C19T.asr_spec
+/-- (E52) **every estimate the loop can return is `|theta|` of a Ritz pair of one of its passes, hence `<= rho` for
+Hermitian `A`** (`|<x, A x>| <= rho <x, x>`) -/
+restate asr_model_estimate_le := PyamgV.C19T.asr_estimate_le
+/-- (E52) the loop commutes with homomorphisms of the vector operations ... -/
+restate asr_model_hom := PyamgV.C19T.asr_hom
+/-- (E52) ... so the statement holds for the `Vector` instance the driver runs, and the list-level function `asrCx`
+(argument checks of `approximate_spectral_radius` included) is that loop -/
+restate cvec_asr_estimate_le := PyamgV.C19T.cvec_asr_estimate_le
+restate asr_cx_is_loop := PyamgV.C19T.asrCx_eq
+
+/-! (E52) `condest` (model `C19T.condestO`, op `ext_c19t_condest`) and `cond` (model `C19T.condCert`: `max sigma / min sigma` of
+singular triples verified by `svdCert`, op `ext_c19t_cond`) -/
+/-- (E52) Ritz values of `A^H A` are real and lie in `[smin^2, smax^2]` whenever `smin^2 <x,x> <= <Ax,Ax> <= smax^2 <x,x>` -/
+restate normal_ritz_between := PyamgV.C19T.normal_ritz_between
+/-- (E52) a successful `condest` run: Krylov run of `A^H A`, verified oracle, `sqrt (max |ev| / min |ev|)` -/
+restate condest_model_spec := PyamgV.C19T.condestO_spec
+/-- (E52) **`condest <= smax / smin = cond_2`** for the model -/
+restate condest_model_le_cond := PyamgV.C19T.condestO_le_cond
+restate cvec_condest_le_cond := PyamgV.C19T.cvec_condest_le_cond
+restate condest_cx_is_run := PyamgV.C19T.condestCx_eq
+/-- (E52) an accepted certificate (tolerance zero): `A v_i = sigma_i u_i`, `U^H U = V^H V = V V^H = I`, `sigma_i` real -/
+restate svd_certificate_spec := PyamgV.C19T.svdCert_spec
+/-- (E52) `|x|^2 = sum |c_i|^2`, `|A x|^2 = sum sigma_i^2 |c_i|^2` for `c_i = v_i^H x` -/
+restate svd_certificate_norms := PyamgV.C19T.svd_norms
+/-- (E52) `(min sigma)^2 |x|^2 <= |A x|^2 <= (max sigma)^2 |x|^2`: the accepted values are the extreme singular values -/
+restate svd_certificate_bounds := PyamgV.C19T.svd_bounds
+/-- (E52) **`cond`**: the value is `max sigma / min sigma` with these bounds -- the 2-norm condition number by definition -/
+restate cond_certificate_spec := PyamgV.C19T.condCert_spec
+restate cond_certificate_bounds := PyamgV.C19T.condCert_bounds
+restate cond_cx_is_cert := PyamgV.C19T.condCertCx_eq
+/-- (E52) **`condest <= cond` between the two executable models** -/
+restate condest_le_cond_models := PyamgV.C19T.cvec_condest_le_condCert
+
 /-! ### non-vacuity: the models do what the theorems say on concrete irregular inputs -/
 open PyamgV.C19 in
 example : scaleMajor (α := Rat) #[2, 1/2] [[(1, 3), (0, 1)], [(1, 4), (1, -2)]] = [[(1, 6), (0, 2)], [(1, 2), (1, -1)]] := by
@@ -301,5 +388,58 @@ example {n : Nat} (A : Vector (Vector ℝ n) n) (v0 : Vector ℝ n) (hv0 : Pyamg
       (PyamgV.C19S.hEntry (PyamgV.C19S.vecRun A Real.sqrt (1 / 10 ^ 10) false v0 k).cols) θ y) : |θ| ≤ ρ :=
   (PyamgV.C19S.vec_arnoldi_ritz A Real.sqrt (1 / 10 ^ 10) (fun _ h => Real.mul_self_sqrt h) (by positivity)
     v0 hv0 k θ y hr).1 ρ hray
+
+set_option synthInstance.maxSize 1024 in
+/-- (E52) exact run of the complex model: `A = [[2, i], [-i, 2]]` (Hermitian, eigenvalues 1 and 3), `v0 = (3, 4i)`:
+orthonormal `V` for the conjugated inner product, `H = V^H A V = [[26/25, 7/25], [7/25, 74/25]]` real symmetric with
+eigenvalues 1, 3; the Lanczos branch returns the same columns -/
+example : PyamgV.C19T.approxEigCxRat [[⟨2, 0⟩, ⟨0, 1⟩], [⟨0, -1⟩, ⟨2, 0⟩]] ⟨1/1000000, 0⟩ false 5 [⟨3, 0⟩, ⟨0, 4⟩]
+      = some ([[⟨3/5, 0⟩, ⟨0, 4/5⟩], [⟨-4/5, 0⟩, ⟨0, 3/5⟩], [⟨0, 0⟩, ⟨0, 0⟩]],
+          [[⟨26/25, 0⟩, ⟨7/25, 0⟩], [⟨7/25, 0⟩, ⟨74/25, 0⟩, ⟨0, 0⟩]], true)
+    ∧ PyamgV.C19T.approxEigCxRat [[⟨2, 0⟩, ⟨0, 1⟩], [⟨0, -1⟩, ⟨2, 0⟩]] ⟨1/1000000, 0⟩ true 5 [⟨3, 0⟩, ⟨0, 4⟩]
+      = some ([[⟨3/5, 0⟩, ⟨0, 4/5⟩], [⟨-4/5, 0⟩, ⟨0, 3/5⟩]],
+          [[⟨26/25, 0⟩, ⟨7/25, 0⟩], [⟨7/25, 0⟩, ⟨74/25, 0⟩, ⟨0, 0⟩]], true) := by decide +kernel
+set_option synthInstance.maxSize 1024 in
+/-- (E52) the restart loop on that matrix, verification tolerance zero.  `maxiter = 5`: one pass (breakdown), the oracle
+eigenpairs `(1, (7,-1))`, `(3, (1,7))` of `H` are accepted, the estimate is 3 = rho with `error = 0`; a perturbed
+eigenvector is refused.  `maxiter = 1`, `restart = 1`: two passes with `theta = 26/25`, `error = 7/25` (not converged for
+`tol = 1/100`), one pass for `tol = 1/2`; `maxiter = 0` is rejected as the code does -/
+example : PyamgV.C19T.asrSummary (PyamgV.C19T.asrCxRat false [[⟨2, 0⟩, ⟨0, 1⟩], [⟨0, -1⟩, ⟨2, 0⟩]] ⟨1/1000000, 0⟩ ⟨1/100, 0⟩ 0 0 5 3
+        [⟨3, 0⟩, ⟨0, 4⟩] [([⟨1, 0⟩, ⟨3, 0⟩], [[⟨7, 0⟩, ⟨-1, 0⟩], [⟨1, 0⟩, ⟨7, 0⟩]], none)])
+      = some [(⟨3, 0⟩, ⟨0, 0⟩, true, true)]
+    ∧ PyamgV.C19T.asrError (PyamgV.C19T.asrCxRat false [[⟨2, 0⟩, ⟨0, 1⟩], [⟨0, -1⟩, ⟨2, 0⟩]] ⟨1/1000000, 0⟩ ⟨1/100, 0⟩ 0 0 5 3
+        [⟨3, 0⟩, ⟨0, 4⟩] [([⟨1, 0⟩, ⟨3, 0⟩], [[⟨7, 0⟩, ⟨-1, 0⟩], [⟨1, 0⟩, ⟨6, 0⟩]], some 1)]) = some "oracle-residual"
+    ∧ PyamgV.C19T.asrSummary (PyamgV.C19T.asrCxRat false [[⟨2, 0⟩, ⟨0, 1⟩], [⟨0, -1⟩, ⟨2, 0⟩]] ⟨1/1000000, 0⟩ ⟨1/100, 0⟩ 0 0 1 1
+        [⟨3, 0⟩, ⟨0, 4⟩] [([⟨26/25, 0⟩], [[⟨1, 0⟩]], none), ([⟨26/25, 0⟩], [[⟨1, 0⟩]], some 0)])
+      = some [(⟨26/25, 0⟩, ⟨7/25, 0⟩, false, false), (⟨26/25, 0⟩, ⟨7/25, 0⟩, false, false)]
+    ∧ PyamgV.C19T.asrSummary (PyamgV.C19T.asrCxRat false [[⟨2, 0⟩, ⟨0, 1⟩], [⟨0, -1⟩, ⟨2, 0⟩]] ⟨1/1000000, 0⟩ ⟨1/2, 0⟩ 0 0 1 1
+        [⟨3, 0⟩, ⟨0, 4⟩] [([⟨26/25, 0⟩], [[⟨1, 0⟩]], none), ([⟨26/25, 0⟩], [[⟨1, 0⟩]], some 0)])
+      = some [(⟨26/25, 0⟩, ⟨7/25, 0⟩, true, false)]
+    ∧ PyamgV.C19T.asrError (PyamgV.C19T.asrCxRat false [[⟨2, 0⟩, ⟨0, 1⟩], [⟨0, -1⟩, ⟨2, 0⟩]] ⟨1/1000000, 0⟩ ⟨1/100, 0⟩ 0 0 0 3
+        [⟨3, 0⟩, ⟨0, 4⟩] []) = some "expected maxiter > 0" := by decide +kernel
+set_option synthInstance.maxSize 1024 in
+/-- (E52) `condest` of that matrix through `A^H A` (eigenvalues 1, 9): estimate `sqrt (9/1) = 3 = cond_2`; `cond` of
+`[[0, 2i], [1, 0]]` from the accepted triples `sigma = (1, 2)`, `U = [e_2, i e_1]`, `V = I`: 2 -/
+example : PyamgV.C19T.condestSummary (PyamgV.C19T.condestCxRat [[⟨2, 0⟩, ⟨0, 1⟩], [⟨0, -1⟩, ⟨2, 0⟩]] ⟨1/1000000, 0⟩ 0 false 5
+        [⟨3, 0⟩, ⟨0, 4⟩] [⟨1, 0⟩, ⟨9, 0⟩] [[⟨7, 0⟩, ⟨-1, 0⟩], [⟨1, 0⟩, ⟨7, 0⟩]]) = some (⟨3, 0⟩, ⟨9, 0⟩, ⟨1, 0⟩)
+    ∧ PyamgV.C19T.exceptVal (PyamgV.C19T.condCertCxRat 0 2 [[⟨0, 0⟩, ⟨0, 2⟩], [⟨1, 0⟩, ⟨0, 0⟩]]
+        [[⟨0, 0⟩, ⟨1, 0⟩], [⟨0, 1⟩, ⟨0, 0⟩]] [[⟨1, 0⟩, ⟨0, 0⟩], [⟨0, 0⟩, ⟨1, 0⟩]] [⟨1, 0⟩, ⟨2, 0⟩]) = some ⟨2, 0⟩
+    ∧ PyamgV.C19T.exceptVal (PyamgV.C19T.condCertCxRat 0 2 [[⟨0, 0⟩, ⟨0, 2⟩], [⟨1, 0⟩, ⟨0, 0⟩]]
+        [[⟨0, 0⟩, ⟨1, 0⟩], [⟨0, 1⟩, ⟨0, 0⟩]] [[⟨1, 0⟩, ⟨0, 0⟩], [⟨0, 0⟩, ⟨1, 0⟩]] [⟨1, 0⟩, ⟨3, 0⟩]) = none := by decide +kernel
+
+/-- (E52) the standing assumptions hold over the real numbers with `Real.sqrt`: for every complex Hermitian matrix (pairs
+of reals), every start vector `!= 0`, every oracle that the model accepts with tolerance zero, every `tol`, `maxiter`,
+`restart`: the value the restart loop returns is bounded by every `rho` with `|x^H A x| <= rho x^H x` -/
+example {n : Nat} (A : Vector (Vector (PyamgV.C19T.Cx ℝ) n) n) (hA : PyamgV.C07.CH.IsHerm A) (ρ : ℝ)
+    (hray : ∀ x, |(PyamgV.C19T.cdot n x (PyamgV.C07.linOf A x)).re| ≤ ρ * (PyamgV.C19T.cdot n x x).re)
+    (tol tieTol : PyamgV.C19T.Cx ℝ) (maxiter restart : Nat) (v0 : Vector (PyamgV.C19T.Cx ℝ) n)
+    (hv0 : PyamgV.C07.toFn v0 ≠ 0)
+    (oracle : List (List (PyamgV.C19T.Cx ℝ) × List (List (PyamgV.C19T.Cx ℝ)) × Option Nat))
+    (cs : List (PyamgV.C19T.Cyc (PyamgV.C19T.Cx ℝ) (Vector (PyamgV.C19T.Cx ℝ) n)))
+    (h : PyamgV.C19T.cvecAsr A Real.sqrt (1 / 10 ^ 10) tol tieTol maxiter restart v0 oracle = .ok cs) :
+    ∃ r, PyamgV.C19T.asrRho (PyamgV.C19T.Cx.absC Real.sqrt) cs = some r ∧ r.re ≤ ρ :=
+  let ⟨_, _, _, r, h1, h2, _⟩ := PyamgV.C19T.cvec_asr_estimate_le A Real.sqrt (1 / 10 ^ 10)
+    (fun _ h => Real.mul_self_sqrt h) Real.sqrt_nonneg (by positivity) hA ρ hray tol tieTol maxiter restart v0 hv0 oracle cs h
+  ⟨r, h1, h2⟩
 
 end PyamgV.Props.C19
